@@ -32,12 +32,12 @@ pub fn plans(tier: Tier, fork: bool) -> Vec<Plan> {
         let main = pi < 2;
         let worker_counts: Vec<usize> = if thorough && main { vec![2, 3] } else { vec![2] };
         for workers in worker_counts {
-            let cfg = ChildCfg { plan: plan.to_string(), workers, eph_chain: if thorough && main && workers == 2 { 2 } else { 1 }, refs: false };
+            let cfg = ChildCfg { plan: plan.to_string(), workers, eph_chain: if thorough && main && workers == 2 { 2 } else { 1 }, refs: false, options: vec![], mutators: 1, bare: false };
             if fork && !thorough && pi == 0 {
                 // quick: one 3-worker round trip (a wake-up that reaches only one of two parked
                 // workers cannot be seen with 2 workers)
-                let cfg3 = ChildCfg { plan: plan.to_string(), workers: 3, eph_chain: 1, refs: false };
-                out.push(Plan { cfg: cfg3, jobs: vec![Job { kind: Kind::Fork { rounds: 1, race: true }, pattern: Pattern::empty(), via_worker: false, bound: 1, free_bound: 0, spurious: 0 }] });
+                let cfg3 = ChildCfg { plan: plan.to_string(), workers: 3, eph_chain: 1, refs: false, options: vec![], mutators: 1, bare: false };
+                out.push(Plan { cfg: cfg3, jobs: vec![Job { kind: Kind::Fork { rounds: 1, race: true }, pattern: Pattern::empty(), via_worker: false, bound: 1, free_bound: 0, spurious: 0, prog: vec![] }] });
             }
             if fork {
                 // a fork round trip costs ~10x a plain collection (thread creation): fewer schedules
@@ -50,9 +50,9 @@ pub fn plans(tier: Tier, fork: bool) -> Vec<Plan> {
                     };
                     let pr = all_patterns(2).into_iter().find(|p| p.name() == "P(R)").unwrap();
                     // one child per job: the jobs are long
-                    out.push(Plan { cfg: cfg.clone(), jobs: vec![Job { kind, pattern: Pattern::empty(), via_worker: false, bound, free_bound, spurious: 0 }] });
+                    out.push(Plan { cfg: cfg.clone(), jobs: vec![Job { kind, pattern: Pattern::empty(), via_worker: false, bound, free_bound, spurious: 0, prog: vec![] }] });
                     if main {
-                        out.push(Plan { cfg: cfg.clone(), jobs: vec![Job { kind, pattern: pr, via_worker: false, bound: 1, free_bound: 0, spurious: 0 }] });
+                        out.push(Plan { cfg: cfg.clone(), jobs: vec![Job { kind, pattern: pr, via_worker: false, bound: 1, free_bound: 0, spurious: 0, prog: vec![] }] });
                     }
                 }
                 continue;
@@ -80,7 +80,7 @@ pub fn plans(tier: Tier, fork: bool) -> Vec<Plan> {
                 let list: Vec<Pattern> = if kind == Kind::Gc2 { pats.iter().take(if thorough { 8 } else { 2 }).cloned().collect() } else { pats.clone() };
                 for (ci, chunk) in list.chunks(shard).enumerate() {
                     // trees of 3 packets (250 of the 281 patterns): preemptions only
-                    let jobs: Vec<Job> = chunk.iter().enumerate().map(|(k, p)| Job { kind, pattern: p.clone(), via_worker: (ci + k) % 2 == 1 && p.len() > 1, bound: 1, free_bound: if p.len() >= 3 { 0 } else { 1 }, spurious: 0 }).collect();
+                    let jobs: Vec<Job> = chunk.iter().enumerate().map(|(k, p)| Job { kind, pattern: p.clone(), via_worker: (ci + k) % 2 == 1 && p.len() > 1, bound: 1, free_bound: if p.len() >= 3 { 0 } else { 1 }, spurious: 0, prog: vec![] }).collect();
                     out.push(Plan { cfg: cfg.clone(), jobs });
                 }
                 if thorough && main && workers == 2 {
@@ -89,17 +89,17 @@ pub fn plans(tier: Tier, fork: bool) -> Vec<Plan> {
                     // patterns
                     if kind == Kind::Gc1 {
                         for p in list.iter().filter(|p| ["-", "P", "V"].contains(&p.name().as_str())) {
-                            out.push(Plan { cfg: cfg.clone(), jobs: vec![Job { kind, pattern: p.clone(), via_worker: false, bound: 2, free_bound: 1, spurious: 0 }] });
+                            out.push(Plan { cfg: cfg.clone(), jobs: vec![Job { kind, pattern: p.clone(), via_worker: false, bound: 2, free_bound: 1, spurious: 0, prog: vec![] }] });
                         }
                     } else {
                         // two collections per execution: 2 preemptions without free deviations
-                        out.push(Plan { cfg: cfg.clone(), jobs: vec![Job { kind, pattern: Pattern::empty(), via_worker: false, bound: 2, free_bound: 0, spurious: 0 }] });
+                        out.push(Plan { cfg: cfg.clone(), jobs: vec![Job { kind, pattern: Pattern::empty(), via_worker: false, bound: 2, free_bound: 0, spurious: 0, prog: vec![] }] });
                     }
-                    let jobs: Vec<Job> = list.iter().take(4).map(|p| Job { kind, pattern: p.clone(), via_worker: false, bound: 1, free_bound: 1, spurious: 1 }).collect();
+                    let jobs: Vec<Job> = list.iter().take(4).map(|p| Job { kind, pattern: p.clone(), via_worker: false, bound: 1, free_bound: 1, spurious: 1, prog: vec![] }).collect();
                     out.push(Plan { cfg: cfg.clone(), jobs });
                 } else if main && kind == Kind::Gc1 {
                     // quick: one injected spurious wake-up per execution on the empty pattern
-                    out.push(Plan { cfg: cfg.clone(), jobs: vec![Job { kind, pattern: Pattern::empty(), via_worker: false, bound: 1, free_bound: 0, spurious: 1 }] });
+                    out.push(Plan { cfg: cfg.clone(), jobs: vec![Job { kind, pattern: Pattern::empty(), via_worker: false, bound: 1, free_bound: 0, spurious: 1, prog: vec![] }] });
                 }
             }
         }
@@ -117,7 +117,10 @@ pub fn finish(run: &mut Run) {
 }
 
 pub fn run(run: &mut Run) {
-    let plans = plans(run.tier, false);
+    let mut plans = plans(run.tier, false);
+    // two mutator threads requesting concurrently (scenario req2: the same children as C11's baton
+    // phase; C14 owns their sched: verdicts)
+    plans.extend(crate::props::c11b::plans(run.tier));
     run.set("child_processes", plans.len() as u64);
     sched::run_parent(run, plans, &owns, run.tier.pick(300, 3000));
     finish(run);
